@@ -4,6 +4,7 @@ import c11lib as L
 NAME = "nurikabe"
 MODULE = "cspuz.puzzle.nurikabe"
 FUNC = "solve_nurikabe"
+TIER1 = ("Nurikabe", "solve_nurikabe_model")
 
 
 def call(mod, pb):
@@ -46,6 +47,38 @@ def tier2(tier, rng):
             yield {"h": h, "w": w, "grid": g}
     for g in L.sample(rng, L.all_grids(2, 2, _values(2, 2)), 40 if tier == "thorough" else 4):
         yield {"h": 2, "w": 2, "grid": g}
+
+
+def tier1_problems(tier, rng):
+    """program-capture tie: every clue layout of the boards with <= 4 cells over {empty, '?', 1..4, h*w, h*w+1, stray
+    negatives}, samples of the 5- and 6-cell boards (both orientations), random larger / non-square boards up to 7x7
+    and 1xN / Nx1 (clue values at and beyond the number of cells, many clues, no clue), boards without cells
+    (ValueError in division_connected) and clue grids with a missing or short row (IndexError)"""
+    th = tier == "thorough"
+
+    def vals(h, w):
+        return sorted(set([0, -1, -2, 1, 2, 3, 4, h * w, h * w + 1]))
+
+    for (h, w) in [(1, 1), (1, 2), (2, 1)]:
+        for g in L.all_grids(h, w, vals(h, w)):
+            yield {"h": h, "w": w, "grid": g}
+    for (h, w) in [(1, 3), (3, 1), (2, 2), (1, 4), (4, 1)]:
+        for g in L.sample(rng, L.all_grids(h, w, vals(h, w)), 400 if th else 40):
+            yield {"h": h, "w": w, "grid": g}
+    for (h, w) in [(1, 5), (5, 1), (1, 6), (6, 1), (2, 3), (3, 2)]:
+        for p in [0.2, 0.5, 0.8] * (8 if th else 2):
+            yield {"h": h, "w": w, "grid": L.random_grid(rng, h, w, vals(h, w), p)}
+    for (h, w) in [(3, 3), (2, 5), (5, 2), (4, 4), (3, 6), (6, 5), (1, 7), (7, 1), (7, 7), (4, 7), (7, 3), (5, 5)]:
+        for p in [0.5, 0.8, 0.95] * (3 if th else 1):
+            yield {"h": h, "w": w, "grid": L.random_grid(rng, h, w, vals(h, w) + [7, 12], p)}
+        yield {"h": h, "w": w, "grid": [[0] * w for _ in range(h)]}
+        yield {"h": h, "w": w, "grid": [[rng.choice([-1, 1, 2, h * w]) for _ in range(w)] for _ in range(h)]}
+    for (h, w) in [(0, 0), (0, 2), (2, 0)]:
+        yield {"h": h, "w": w, "grid": [[] for _ in range(h)]}
+    yield {"h": 2, "w": 2, "grid": [[1, 0]]}            # missing row
+    yield {"h": 2, "w": 2, "grid": [[1, 0], [0]]}       # short last row
+    yield {"h": 1, "w": 3, "grid": [[-1, 2]]}
+    yield {"h": 3, "w": 1, "grid": [[0], [5]]}
 
 
 def big(tier, rng):
